@@ -76,7 +76,18 @@ class ShapesGraph(object):
         """
         rest_of = {}
         for s, o in self.graph.subject_objects(RDF_rest):
-            rest_of.setdefault(s, o)
+            if rest_of.setdefault(s, o) != o:
+                # Which of the two continuations is followed would depend on the iteration order of the store.
+                raise ShapeLoadError(
+                    "A RDF list node in the SHACL Shapes Graph has more than one rdf:rest.",
+                    "https://www.w3.org/TR/shacl/#syntax",
+                )
+        for s in rest_of:
+            if len(set(self.graph.objects(s, RDF_first))) > 1:
+                raise ShapeLoadError(
+                    "A RDF list node in the SHACL Shapes Graph has more than one rdf:first.",
+                    "https://www.w3.org/TR/shacl/#syntax",
+                )
         checked = set()
         for start in rest_of:
             if start in checked:
